@@ -173,11 +173,38 @@ func sessionC15(r *vk.Run, rng *rand.Rand, idx int) {
 				a = "pos(" + fmt.Sprint(1+rng.Intn(nitems+1)) + ")"
 				kinds["move"] = true
 			}
-			if code, err := s.Post(a); err != nil || code != 200 {
-				r.Inconclusive(fmt.Sprintf("POST %q: %v %d", a, err, code))
-				return
+			var seqn []string
+			if rng.Intn(14) == 0 {
+				// jump mode replaces the pointer column by labels; an action from outside ends it and the
+				// column has to be repainted (the second action repaints nothing by itself)
+				seqn = []string{"jump", "change-prompt(" + nonce + " )"}
+				kinds["jump"] = true
+			} else if g.multi && rng.Intn(10) == 0 {
+				// exactly half of the matches selected, then toggle-all: the number of selected items stays
+				// the same, the markers must swap
+				if stq, err := s.Get(0); err == nil && stq.MatchCount >= 2 && stq.MatchCount%2 == 0 && stq.MatchCount <= 60 {
+					seqn = append(seqn, "deselect-all")
+					for i := 1; i <= stq.MatchCount/2; i++ {
+						seqn = append(seqn, fmt.Sprintf("pos(%d)+select", i))
+					}
+					seqn = append(seqn, "toggle-all")
+					kinds["half-toggle-all"] = true
+				}
 			}
-			hist = append(hist, a)
+			if len(seqn) == 0 {
+				seqn = []string{a}
+			}
+			for _, a := range seqn {
+				if code, err := s.Post(a); err != nil || code != 200 {
+					r.Inconclusive(fmt.Sprintf("POST %q: %v %d", a, err, code))
+					return
+				}
+				hist = append(hist, a)
+				if !s.WaitConsumed(20 * time.Second) {
+					r.Inconclusive("batch not consumed: " + a)
+					return
+				}
+			}
 		}
 		if nc, nr := 30+rng.Intn(80), 8+rng.Intn(22); rng.Intn(3) == 0 && (nc != cols || nr != rows) {
 			// (a resize to the current size changes nothing and sends no signal)
